@@ -22,6 +22,7 @@ struct Stage {
     linger: u64,
     code: u32,
     take: u64, // 0 = read everything; otherwise stop reading after this many bytes and exit
+    close_err: bool, // gives up stderr too before it lingers
 }
 
 fn stage_exec(ctx: &Ctx, i: usize, s: &Stage, dir: &Path) -> Exec {
@@ -36,6 +37,7 @@ fn stage_exec(ctx: &Ctx, i: usize, s: &Stage, dir: &Path) -> Exec {
         dir.join(format!("stage{}.rep", i)).to_string_lossy().into_owned(),
         "0".to_string(),
         s.take.to_string(),
+        if s.close_err { "1".to_string() } else { "0".to_string() },
     ])
 }
 
@@ -173,6 +175,7 @@ fn c13_case(ctx: &mut Ctx, rng: &mut Rng, i: u64) {
             linger: if j + 1 < n && rng.chance(250) { rng.range(50, 150) } else { 0 },
             code: rng.below(4) as u32 * if rng.chance(500) { 0 } else { 1 },
             take: if j == early_at { rng.range(1, 5000) } else { 0 },
+            close_err: rng.chance(500),
         })
         .collect();
     // a copy of a command stands for the command
@@ -522,7 +525,7 @@ fn c14_case(ctx: &mut Ctx, n: usize, kfail: usize, stdin_kind: &str, term: &str,
             }
         } else {
             match earlier {
-                "cat-like" => stage_exec(ctx, j, &Stage { a: 1, b: 0, nerr: 0, linger: 0, code: 0, take: 0 }, &dir),
+                "cat-like" => stage_exec(ctx, j, &Stage { a: 1, b: 0, nerr: 0, linger: 0, code: 0, take: 0, close_err: false }, &dir),
                 // detached: it outlives the attempt by far, so whoever waits for it is seen to have waited
                 "ignores-stdin-and-sleeps" => Exec::cmd(&ctx.vchild).args(&["io", "1", if detached { "s3000,x0" } else { "s30,x0" }]).arg(dir.join(format!("io{}.rep", j))),
                 "writes-a-lot" => Exec::cmd(&ctx.vchild).args(&["io", "1", "w1:400000:4096,x0"]).arg(dir.join(format!("io{}.rep", j))),
